@@ -14,7 +14,7 @@ from . import transports as T
 from .engine import Violation, gen_costs, collect_info, gen_eintr, gen_intr
 from .harness import EOF, TIMEOUT
 from .kernel import PtyMaster, PtySlave, ECHO, ICANON, ISIG, OPOST, IEXTEN, default_termios
-from .sendlog import SeqLog
+from .sendlog import SeqLog, make_log
 from .world import SimHang, HarnessError, SimInterrupt
 
 
@@ -84,6 +84,8 @@ def generate(rng):
     if rng.random() < 0.3:
         scn['exit_gap_us'] = rng.choice([1, 100, 5000])
     scn['logs'] = rng.choice([[], [], ['logfile'], ['logfile_read', 'logfile_send']])
+    if rng.random() < 0.25:
+        scn['log_kind'] = 'len'
     if rng.random() < 0.25:
         scn['short_writes'] = [rng.choice([0, 1, 3, 100]) for _ in range(rng.randint(1, 4))]
     scn['in_cap'] = rng.choice([4096, 4096, 64])
@@ -301,7 +303,7 @@ def run(scn, prop=None):
         ctr = [0]
         logs = {}
         for name in scn.get('logs', []):
-            logs[name] = SeqLog(ctr, name)
+            logs[name] = make_log(scn, ctr, name)
             setattr(child, name, logs[name])
         filt = scn.get('filters', 'none')
 
@@ -329,7 +331,7 @@ def run(scn, prop=None):
                 res_ = base_out(b)
                 late['calls'].append(res_)
                 if len(late['calls']) == int(scn.get('late_at', 2)) and late['log'] is None:
-                    late['log'] = SeqLog(ctr, 'logfile_read')
+                    late['log'] = make_log(scn, ctr, 'logfile_read')
                     late['from'] = len(late['calls']) - 1
                     child.logfile_read = late['log']
                 return res_
